@@ -277,7 +277,7 @@ func (Engine) Generate(r *simcore.RNG, tier string, idx int) *simcore.Plan {
 			st.A = append([]int64{r.Range(0, 4), r.Range(0, 63), r.Range(0, 63)}, amtSpec(r, regime, 0)...)
 		case 13:
 			st.Op = "setfee"
-			st.A = []int64{int64(r.Weighted([]int{35, 40, 25})), r.Range(0, 63), r.Range(0, 63), r.Range(0, 63), r.Range(0, 9)}
+			st.A = []int64{int64(r.Weighted([]int{30, 35, 20, 15})), r.Range(0, 63), r.Range(0, 63), r.Range(0, 63), r.Range(0, 9)}
 		case 14:
 			st.Op = "advance"
 			st.A = []int64{r.Range(1, 20000)}
@@ -708,6 +708,17 @@ func (w *world) setFeeParam(i int, st simcore.Step) {
 		fee := takerFees[int(st.Arg(1))%len(takerFees)]
 		k.SetParam(w.n.Ctx, pmtypes.KeyDefaultTakerFee, osmomath.MustNewDecFromStr(fee))
 		w.run.Logf("%d setfee default=%s", i, fee)
+	case 3:
+		// taker-fee share agreement: a share of every taker fee charged on routes that touch the
+		// denomination is set aside for the skim address (paid out at the next fee-distribution epoch)
+		d := pick(w.denoms, st.Arg(1))
+		pct := []string{"0.05", "0.25", "0.5", "1"}[int(st.Arg(2))%4]
+		to := w.n.Accts[w.actor(st.Arg(3))].String()
+		if err := k.SetTakerFeeShareAgreementForDenom(w.n.Ctx, pmtypes.TakerFeeShareAgreement{Denom: d, SkimPercent: osmomath.MustNewDecFromStr(pct), SkimAddress: to}); err != nil {
+			panic(fmt.Sprintf("harness: taker-fee share agreement: %v", err))
+		}
+		w.run.Probe("taker-fee-share-agreement-set")
+		w.run.Logf("%d setfee agreement %s %s -> %s", i, d, pct, to)
 	default:
 		a := w.actor(st.Arg(1))
 		w.white[a] = !w.white[a]
